@@ -18,8 +18,8 @@ const dtPkg = "(*github.com/orda-io/orda/client/pkg/internal/datatypes."
 func VF_C20_Goroutines() {
 	kindA := vf.Choice("a", 3)
 	kindB := vf.Choice("b", 4)
-	if kindA == 2 && kindB != 3 && kindB != 1 {
-		vf.Assume(false) // the failing transaction is paired with the background sync and with a committing transaction (bound)
+	if kindA == 2 && kindB == 0 {
+		vf.Assume(false) // the failing transaction is paired with a committing transaction, a remote delivery and the background sync (bound)
 	}
 	n := 2
 	if vf.Tier() == 1 && kindA != 2 && kindB != 3 {
